@@ -6,11 +6,16 @@ use serde_json::Value;
 use vmodel::engine::{Failure, ShardCtx, Tier, Verdict};
 
 pub mod common;
+pub mod c01;
 pub mod c02;
 pub mod c04;
+pub mod c06;
 pub mod c07;
 pub mod c08;
+pub mod c13;
+pub mod c15;
 pub mod c17;
+pub mod lockstep;
 
 pub enum PrepError {
     Violation(Failure),
@@ -53,7 +58,7 @@ pub const DEFAULT: Check = Check {
 };
 
 pub fn all() -> Vec<Check> {
-    vec![c02::check(), c04::check(), c07::check(), c08::check(), c17::check()]
+    vec![c01::check(), c02::check(), c06::check(), c13::check(), c15::check(), c04::check(), c07::check(), c08::check(), c17::check()]
 }
 
 pub fn find(id: &str) -> Option<Check> {
